@@ -296,3 +296,34 @@ def extent_width(repo, rep, rule, prefixes=("wavespectra.core.npstats", "wavespe
                      "width comes out as 87.5 instead of 10; use the circular difference of neighbouring bins", anchor=f"extent-width:{fi.short}")
     rep.ok(rule, "statistics", f"{n} functions", "no width derived from the extent of the direction axis")
     rep.floor(rule, "functions scanned", n, 60)
+
+
+# ---------------------------------------------------------------------------------------------------------------------
+def reader_positions_unchanged(repo, rep, rule, prefixes=("wavespectra.input.", "wavespectra.core.swan")):
+    """Readers return the positions the file holds: no reduction modulo 360 (or shift by 360 / 180) of a longitude read from a file."""
+    def sites(tree):
+        out = []
+        for st in ast.walk(tree):
+            if not isinstance(st, (ast.Assign, ast.AugAssign, ast.Return, ast.Expr)):
+                continue
+            txt = unparse(st).lower()
+            if "lon" not in txt:
+                continue
+            for b in ast.walk(st):
+                if isinstance(b, ast.BinOp) and isinstance(b.op, ast.Mod) and isinstance(b.right, ast.Constant) and b.right.value in (360, 360.0) \
+                        and "lon" in unparse(st.targets[0] if isinstance(st, ast.Assign) else st).lower() and "dir" not in unparse(b).lower():
+                    out.append((st, b))
+        return out
+    if len(sites(ast.parse("lon = float(parts[1]) % 360\ndirs = (d + 180) % 360\nlat = float(parts[0])"))) != 1:
+        raise AnalysisError(f"{rule}: detector does not fire exactly on its positive example")
+    n = 0
+    for fi in repo.all_funcs():
+        if not fi.module.name.startswith(tuple(prefixes)):
+            continue
+        n += 1
+        for st, b in sites(fi.node):
+            rep.fail(rule, fi.file, st.lineno, fi.qualname, unparse(st)[:100],
+                     "a longitude read from the file is reduced modulo 360: a station at -71.12 comes back at 288.88 - the position returned is not the one in the file",
+                     anchor=f"reader-lon-mod:{fi.short}")
+    rep.ok(rule, "readers", f"{n} functions", "no longitude is folded into another convention while reading")
+    rep.floor(rule, "reader functions scanned", n, 60)
